@@ -160,3 +160,241 @@ pub proof fn lemma_unwritten_kept<V>(w: Seq<Node>, k: int, m: Map<String, V>, na
 pub open spec fn const_final(su: pt::SourceUnit) -> Map<String, VarInfo> {
     after_writes(w_writes(su_node(su)), w_writes(su_node(su)).len() as int, sv_table(su, true, false))
 }
+
+// ---------------------------------------------------------------- memory_to_calldata
+pub open spec fn any_fn_def(n: Node) -> Option<pt::FunctionDefinition> {
+    match n {
+        Node::ContractPart(pt::ContractPart::FunctionDefinition(f)) => Some(*f),
+        Node::SourceUnitPart(pt::SourceUnitPart::FunctionDefinition(f)) => Some(*f),
+        _ => None,
+    }
+}
+/// named `memory` parameters: name -> location of the `memory` keyword
+pub open spec fn margs(ps: Seq<(pt::Loc, Option<pt::Parameter>)>, k: int) -> Map<String, pt::Loc>
+    decreases k
+{
+    if 0 < k <= ps.len() {
+        let m = margs(ps, k - 1);
+        match ps[k - 1].1 {
+            Some(p) => match (p.storage, p.name) {
+                (Some(pt::StorageLocation::Memory(loc)), Some(id)) => m.insert(id.name, loc),
+                _ => m,
+            },
+            None => m,
+        }
+    } else { Map::<String, pt::Loc>::empty() }
+}
+/// innermost base of a chain of index accesses
+pub open spec fn peel(e: pt::Expression) -> pt::Expression
+    decreases e
+{
+    match e { pt::Expression::ArraySubscript(_, inner, _) => peel(*inner), _ => e }
+}
+/// the parameter name a plain assignment writes to: `p = ..` or `p[i]..[j] = ..`
+pub open spec fn assign_base(n: Node) -> Option<String> {
+    match n {
+        Node::Expression(pt::Expression::Assign(_, lhs, _)) => match *lhs {
+            pt::Expression::Variable(id) => Some(id.name),
+            pt::Expression::ArraySubscript(_, b, _) => var_name(peel(*b)),
+            _ => None,
+        },
+        _ => None,
+    }
+}
+pub open spec fn after_assigns(w: Seq<Node>, k: int, m: Map<String, pt::Loc>) -> Map<String, pt::Loc>
+    decreases k
+{
+    if 0 < k <= w.len() {
+        match assign_base(w[k - 1]) { Some(name) => after_assigns(w, k - 1, m).remove(name), None => after_assigns(w, k - 1, m) }
+    } else { m }
+}
+pub open spec fn w_assigns(body: pt::Statement) -> Seq<Node> { spec_walk(set![Target::Assign], Node::Statement(body)) }
+pub open spec fn mtc_final(f: pt::FunctionDefinition) -> Map<String, pt::Loc> {
+    after_assigns(w_assigns(f.body.unwrap()), w_assigns(f.body.unwrap()).len() as int, margs(f.params@, f.params@.len() as int))
+}
+pub open spec fn mtc_of_fn(n: Node) -> Set<pt::Loc> {
+    match any_fn_def(n) {
+        Some(f) => if !(f.ty is Constructor) && (f.body is Some) { mtc_final(f).values() } else { Set::<pt::Loc>::empty() },
+        None => Set::<pt::Loc>::empty(),
+    }
+}
+pub open spec fn union_hits(w: Seq<Node>, k: int, f: spec_fn(Node) -> Set<pt::Loc>) -> Set<pt::Loc>
+    decreases k
+{
+    if 0 < k <= w.len() { union_hits(w, k - 1, f).union(f(w[k - 1])) } else { Set::<pt::Loc>::empty() }
+}
+/// C08 never-clause: a parameter assigned (directly or through indexes) in the body is not suggested
+pub proof fn lemma_assigned_removed(w: Seq<Node>, k: int, m: Map<String, pt::Loc>, i: int)
+    requires 0 <= i < k <= w.len(), assign_base(w[i]) is Some
+    ensures !after_assigns(w, k, m).contains_key(assign_base(w[i]).unwrap())
+    decreases k
+{
+    if i < k - 1 { lemma_assigned_removed(w, k - 1, m, i); }
+}
+#[verifier::external_body]
+pub proof fn axiom_function_ty_eq()
+    ensures
+        <pt::FunctionTy as vstd::std_specs::cmp::PartialEqSpec<pt::FunctionTy>>::obeys_eq_spec(),
+        forall|a: pt::FunctionTy, b: pt::FunctionTy| #[trigger] <pt::FunctionTy as vstd::std_specs::cmp::PartialEqSpec<pt::FunctionTy>>::eq_spec(&a, &b) == (a == b),
+{}
+pub assume_specification[ <pt::FunctionDefinition as Clone>::clone ](a: &pt::FunctionDefinition) -> (r: pt::FunctionDefinition) ensures r == *a;
+/// values seen among the first k items of an iteration sequence
+pub open spec fn seq_vals(s: Seq<(String, pt::Loc)>, k: int) -> Set<pt::Loc>
+    decreases k
+{
+    if 0 < k <= s.len() { seq_vals(s, k - 1).insert(s[k - 1].1) } else { Set::<pt::Loc>::empty() }
+}
+pub proof fn lemma_seq_vals_contains(s: Seq<(String, pt::Loc)>, k: int, l: pt::Loc)
+    requires 0 <= k <= s.len()
+    ensures seq_vals(s, k).contains(l) <==> (exists|j: int| 0 <= j < k && (#[trigger] s[j]).1 == l)
+    decreases k
+{
+    if k > 0 {
+        lemma_seq_vals_contains(s, k - 1, l);
+        if s[k - 1].1 == l { assert(s[k - 1].1 == l); }
+    }
+}
+/// iterating a map by value visits exactly its values
+pub proof fn lemma_seq_vals_all(s: Seq<(String, pt::Loc)>, fin: Map<String, pt::Loc>)
+    requires forall|k: String, v: pt::Loc| #![trigger s.contains((k, v))] s.contains((k, v)) <==> (fin.contains_key(k) && fin[k] == v)
+    ensures seq_vals(s, s.len() as int) =~= fin.values()
+{
+    assert forall|l: pt::Loc| seq_vals(s, s.len() as int).contains(l) <==> fin.values().contains(l) by {
+        lemma_seq_vals_contains(s, s.len() as int, l);
+        if fin.values().contains(l) {
+            let name = choose|name: String| fin.contains_key(name) && fin[name] == l;
+            assert(s.contains((name, l)));
+            let j = choose|j: int| 0 <= j < s.len() && s[j] == (name, l);
+            assert(s[j].1 == l);
+        }
+        if (exists|j: int| 0 <= j < s.len() && (#[trigger] s[j]).1 == l) {
+            let j = choose|j: int| 0 <= j < s.len() && (#[trigger] s[j]).1 == l;
+            assert(s.contains(s[j]));
+            assert(s[j] == (s[j].0, s[j].1));
+            assert(fin.contains_key(s[j].0) && fin[s[j].0] == l);
+        }
+    }
+}
+
+// ---------------------------------------------------------------- immutable_variables
+pub open spec fn fn_def_of(n: Node) -> Option<pt::FunctionDefinition> {
+    match n { Node::ContractPart(pt::ContractPart::FunctionDefinition(f)) => Some(*f), _ => None }
+}
+pub open spec fn w_fns(c: Node) -> Seq<Node> { spec_walk(set![Target::FunctionDefinition], c) }
+/// the assigned value can not be stored in an immutable (string literal, abi.*(..) call, bytes(..) conversion)
+pub open spec fn non_value(e: pt::Expression) -> bool {
+    match e {
+        pt::Expression::StringLiteral(_) => true,
+        pt::Expression::FunctionCall(_, f, _) => match *f {
+            pt::Expression::MemberAccess(_, b, _) => match *b { pt::Expression::Variable(id) => id.name@ == "abi"@, _ => false },
+            pt::Expression::Type(_, ty) => ty is DynamicBytes,
+            _ => false,
+        },
+        _ => false,
+    }
+}
+pub open spec fn ctor_assign_step(n: Node, tbl: Map<String, VarInfo>, m: Map<String, pt::Loc>) -> Map<String, pt::Loc> {
+    match n {
+        Node::Expression(pt::Expression::Assign(_, lhs, rhs)) => if non_value(*rhs) { m } else {
+            match *lhs {
+                pt::Expression::Variable(id) => if tbl.contains_key(id.name) { m.insert(id.name, tbl[id.name].1) } else { m },
+                _ => m,
+            }
+        },
+        _ => m,
+    }
+}
+pub open spec fn ctor_assigns(w: Seq<Node>, k: int, tbl: Map<String, VarInfo>, m: Map<String, pt::Loc>) -> Map<String, pt::Loc>
+    decreases k
+{ if 0 < k <= w.len() { ctor_assign_step(w[k - 1], tbl, ctor_assigns(w, k - 1, tbl, m)) } else { m } }
+pub open spec fn ctor_fn(n: Node, tbl: Map<String, VarInfo>, m: Map<String, pt::Loc>) -> Map<String, pt::Loc> {
+    match fn_def_of(n) {
+        Some(f) => if (f.ty is Constructor) && (f.body is Some) {
+            ctor_assigns(w_assigns(f.body.unwrap()), w_assigns(f.body.unwrap()).len() as int, tbl, m)
+        } else { m },
+        None => m,
+    }
+}
+pub open spec fn ctor_fns(w: Seq<Node>, k: int, tbl: Map<String, VarInfo>, m: Map<String, pt::Loc>) -> Map<String, pt::Loc>
+    decreases k
+{ if 0 < k <= w.len() { ctor_fn(w[k - 1], tbl, ctor_fns(w, k - 1, tbl, m)) } else { m } }
+pub open spec fn ctor_contracts(w: Seq<Node>, k: int, tbl: Map<String, VarInfo>) -> Map<String, pt::Loc>
+    decreases k
+{
+    if 0 < k <= w.len() { ctor_fns(w_fns(w[k - 1]), w_fns(w[k - 1]).len() as int, tbl, ctor_contracts(w, k - 1, tbl)) } else { Map::<String, pt::Loc>::empty() }
+}
+/// table variables that receive a value-typed plain assignment inside some constructor body
+pub open spec fn assigned_in_ctor(su: pt::SourceUnit, tbl: Map<String, VarInfo>) -> Map<String, pt::Loc> {
+    ctor_contracts(w1(su, Target::ContractDefinition), w1(su, Target::ContractDefinition).len() as int, tbl)
+}
+pub open spec fn imm_fn(n: Node, m: Map<String, pt::Loc>) -> Map<String, pt::Loc> {
+    match fn_def_of(n) {
+        Some(f) => if f.ty is Constructor { m } else { after_writes(w_writes(n), w_writes(n).len() as int, m) },
+        None => m,
+    }
+}
+pub open spec fn imm_fns(w: Seq<Node>, k: int, m: Map<String, pt::Loc>) -> Map<String, pt::Loc>
+    decreases k
+{ if 0 < k <= w.len() { imm_fn(w[k - 1], imm_fns(w, k - 1, m)) } else { m } }
+pub open spec fn imm_contracts(w: Seq<Node>, k: int, m: Map<String, pt::Loc>) -> Map<String, pt::Loc>
+    decreases k
+{ if 0 < k <= w.len() { imm_fns(w_fns(w[k - 1]), w_fns(w[k - 1]).len() as int, imm_contracts(w, k - 1, m)) } else { m } }
+pub open spec fn imm_final(su: pt::SourceUnit) -> Map<String, pt::Loc> {
+    imm_contracts(w1(su, Target::ContractDefinition), w1(su, Target::ContractDefinition).len() as int,
+                  assigned_in_ctor(su, sv_table(su, true, true)))
+}
+pub assume_specification[ <pt::Expression as Clone>::clone ](a: &pt::Expression) -> (r: pt::Expression) ensures r == *a;
+pub assume_specification[ <pt::ContractPart as Clone>::clone ](a: &pt::ContractPart) -> (r: pt::ContractPart) ensures r == *a;
+// TRUSTED: derived PartialEq of pt::Type is structural equality
+#[verifier::external_body]
+pub proof fn axiom_type_eq()
+    ensures
+        <pt::Type as vstd::std_specs::cmp::PartialEqSpec<pt::Type>>::obeys_eq_spec(),
+        forall|a: pt::Type, b: pt::Type| #[trigger] <pt::Type as vstd::std_specs::cmp::PartialEqSpec<pt::Type>>::eq_spec(&a, &b) == (a == b),
+{}
+#[verifier::external_body]
+pub proof fn axiom_node_into_identity()
+    ensures <Node as FromSpec<Node>>::obeys_from_spec(), forall|n: Node| #[trigger] <Node as FromSpec<Node>>::from_spec(n) == n
+{}
+pub proof fn lemma_flt_member(t: Set<Target>, s: Seq<Node>, x: Node)
+    requires flt(t, s).contains(x)
+    ensures s.contains(x), wanted(t, x)
+    decreases s.len()
+{
+    reveal(Seq::filter);
+    if s.len() > 0 {
+        let sub = s.drop_last();
+        if flt(t, sub).contains(x) {
+            lemma_flt_member(t, sub, x);
+            let j = choose|j: int| 0 <= j < sub.len() && sub[j] == x;
+            assert(s[j] == x);
+        } else {
+            let i = choose|i: int| 0 <= i < flt(t, s).len() && flt(t, s)[i] == x;
+            assert(wanted(t, s.last()));
+            assert(flt(t, s) =~= flt(t, sub).push(s.last()));
+            if i < flt(t, sub).len() { assert(flt(t, sub)[i] == x); assert(false); }
+            assert(x == s.last());
+            assert(s[s.len() - 1] == x);
+        }
+    }
+}
+pub proof fn lemma_fn_nodes_in_contract(c: Node, i: int)
+    requires contract_of(c) is Some, 0 <= i < spec_walk(set![Target::FunctionDefinition], c).len()
+    ensures
+        spec_walk(set![Target::FunctionDefinition], c)[i] is ContractPart,
+        kind(spec_walk(set![Target::FunctionDefinition], c)[i]) == Target::FunctionDefinition,
+{
+    let t = set![Target::FunctionDefinition];
+    let s = all_nodes(c);
+    let x = flt(t, s)[i];
+    assert(flt(t, s).contains(x));
+    lemma_flt_member(t, s, x);
+    let j = choose|j: int| 0 <= j < s.len() && s[j] == x;
+    match c {
+        Node::SourceUnitPart(p) => {
+            lemma_bt_SourceUnitPart(p);
+            if j == 0 { assert(s[0] == c); } else { assert(s.subrange(1, s.len() as int)[j - 1] == s[j]); assert(below_top(x)); }
+        }
+        _ => {}
+    }
+}
